@@ -42,6 +42,10 @@ func init() {
 		Assumptions: []string{"stdout and stderr are compared separately; relative order between the two streams is not part of the statement"},
 		Cases:       func(t string) int { return tierN(t, 64, 1600) },
 		RunCase: func(c *CaseCtx) *CaseResult {
+			if c.Idx%16 == 9 {
+				// two task names related through the escaping of the file output store; the second task never ran
+				return simpleCase(c, drv.RunLogNamePairCase(int64(c.Idx/16), c.TmpDir), 4)
+			}
 			if c.Idx%16 == 5 {
 				// the log file of one task cannot be created: the output of its siblings is captured all the same
 				return simpleCase(c, drv.RunLogCreationFaultCase(int64(c.Idx/16), c.TmpDir), 4)
